@@ -51,7 +51,8 @@ fn debug_walk(bytes: &[u8], o: &mut Obs) {
 
 // ------------------------------------------------------------------------------------------------
 // computed-size record arrays whose run-time item size is 0: `ComputedArray::len()` is 0; `get(i)` must
-// not succeed for every `i` (the array printer and `SomeArray::iter` stop at the first `None`)
+// answer every `i` (/repo 6475b6a); the TRAVERSAL (array printer, `SomeArray::iter`: walk until the first `None`)
+// must be bounded by `len()`
 
 /// (name, table bytes) for every table family with a computed-size record array, item size 0
 fn zero_item_tables() -> Vec<(&'static str, Vec<u8>)> {
@@ -134,10 +135,10 @@ fn zero_item_walk(name: &'static str) -> impl Fn(&[u8], &mut Obs) {
                     if let Ok(st) = g.shared_tuples() {
                         let arr = st.tuples();
                         o.drain("tuples.iter", cap, arr.iter(), |o, _| o.note(2));
+                        // `get` itself answers beyond `len()` for zero-sized items (the count is not
+                        // recoverable from the byte length); only the digest is recorded
                         for i in edge_usize(&[arr.len()]) {
-                            if arr.get(i).is_ok() && i >= arr.len() {
-                                o.over = Some(format!("ComputedArray::get({i}) is Ok but len() is {}", arr.len()));
-                            }
+                            o.note(arr.get(i).is_ok() as u64);
                         }
                     }
                 }
@@ -155,8 +156,9 @@ fn zero_item_walk(name: &'static str) -> impl Fn(&[u8], &mut Obs) {
     }
 }
 
-/// `ComputedArray` directly: `get(i)` may only succeed below `len()` (Model/HandRead.lean
-/// `computedGet`, Props/C01Hand.lean `computedGet_lt_len`)
+/// `ComputedArray` directly: `len()` and `get(i)` at boundary indices vs Model/HandRead.lean `compLen` /
+/// `compGet` (Props/C01Hand.lean `computedGet_in_bounds`, `computedGet_zero_item`), and the number of items the
+/// real traversal yields vs Model/HandIter.lean `travTrace` (`traverse_computed_array_bounded`)
 fn computed_array_cases(ctx: &mut Ctx) {
     for data_len in 0..=12usize {
         for axis_count in [0u16, 1, 2, 3] {
@@ -186,8 +188,46 @@ fn computed_array_cases(ctx: &mut Ctx) {
     }
 }
 
+/// items yielded by `SomeArray::iter` on the shared tuples of a gvar with the given axis / tuple counts
+fn traversal_cases(ctx: &mut Ctx) {
+    use read_fonts::traversal::FieldType;
+    for axis_count in 0u16..4 {
+        for n in 0u16..6 {
+            let mut b = B::new();
+            b.u16(1).u16(0).u16(axis_count).u16(n).u32(22).u16(0).u16(0).u32(22).u16(0);
+            for k in 0..n * axis_count {
+                b.u16(k);
+            }
+            let what = format!("hd.trav {} {}", n as usize * axis_count as usize * 2, axis_count as usize * 2);
+            PROGRESS.fetch_add(1, Ordering::Relaxed);
+            let bytes = b.v.clone();
+            let r = catch(|| {
+                let gvar = Gvar::read(FontData::new(&bytes)).ok()?;
+                let st = gvar.shared_tuples().ok()?;
+                let t: &dyn SomeTable = &st;
+                for f in t.iter().take(8) {
+                    if let FieldType::Array(a) = f.value {
+                        return Some((a.iter().take(bytes.len() + 2).count(), a.len()));
+                    }
+                }
+                None
+            });
+            match r {
+                Ok(Some((n_items, len))) => {
+                    ctx.oracle("no-panic", true, String::new, String::new);
+                    ctx.oracle("iter-bounded", n_items <= len, || format!("{what} {}", hex(&bytes)), || format!("SomeArray::iter yielded {n_items} items, len() = {len}"));
+                    ctx.case(what, n_items.to_string());
+                }
+                Ok(None) => ctx.oracle("traversal-reaches-array", false, || format!("{what} {}", hex(&bytes)), || "no array field found".into()),
+                Err(m) => ctx.oracle("no-panic", false, || what.clone(), || m.clone()),
+            }
+        }
+    }
+}
+
 pub fn run(ctx: &mut Ctx) {
     computed_array_cases(ctx);
+    traversal_cases(ctx);
     for (name, bytes) in zero_item_tables() {
         let b = B { v: bytes, fields: vec![] };
         let f = zero_item_walk(name);
